@@ -1,6 +1,7 @@
 package main
 
 import (
+	"os"
 	"fmt"
 	"go/token"
 	"go/types"
@@ -430,12 +431,32 @@ func (g *VCGen) localsAt(b *ssa.BasicBlock, subst map[ssa.Value]SpecVal) func(st
 			if !ok {
 				break
 			}
+			if os.Getenv("PVDEBUG") != "" {
+				fmt.Fprintf(os.Stderr, "localsAt %s: phi %s comment %q\n", name, phi.Name(), phi.Comment)
+			}
 			if phi.Comment == name {
 				if s, ok := subst[phi]; ok {
 					return s, true
 				}
 				if s, ok := g.vals[phi]; ok {
 					return s, true
+				}
+			}
+		}
+		// 1b. a variable that lives in a local cell (address-taken or assigned in place): read the cell
+		for _, bb := range g.fn.Blocks {
+			if !bb.Dominates(b) {
+				continue
+			}
+			for _, in := range bb.Instrs {
+				if al, ok := in.(*ssa.Alloc); ok && al.Comment == name {
+					if sv, ok := g.vals[al]; ok {
+						et := al.Type().Underlying().(*types.Pointer).Elem()
+						if _, isArr := et.Underlying().(*types.Array); !isArr && !g.isImmutable(et) {
+							a := g.objAddr(sv.T, et)
+							return SpecVal{g.load(g.cur, a), g.so.sortOf(et), et}, true
+						}
+					}
 				}
 			}
 		}
